@@ -27,23 +27,20 @@ void harness(void){
     htp_status_t rc=htp_parse_hostport(in,&host,&port,&pn,&inv);
     assert(rc==HTP_OK); assert(inv==0||inv==1);
     size_t s=0,e=len; while(s<e && is_ws(raw[s])) s++; while(e>s && is_ws(raw[e-1])) e--;
-    if(s==e){ assert(host==NULL && port==NULL && inv==1 && pn==-1); }
-    if(host){
-        size_t hl=bstr_len(host); assert(hl<=e-s);
-        for(size_t i=0;i<N;i++) if(i<hl) assert(lc(bstr_ptr(host)[i])==lc(raw[s+i]));
-        size_t p=s+hl;
-        if(port){
-            while(p<e && is_ws(raw[p])) p++;
-            assert(p<e && raw[p]==':'); p++;
-            size_t pl=bstr_len(port); assert(p+pl==e);
-            for(size_t i=0;i<N;i++) if(i<pl) assert(bstr_ptr(port)[i]==raw[p+i]);
-            long v=ref_port(raw+p,pl);
-            if(v>=1 && v<=65535){ assert(pn==(int)v); assert(inv==0); } else { assert(pn==-1); assert(inv==1); }
-        } else {
-            assert(pn==-1);
-            if(!inv) assert(p==e);   /* nothing dropped unless flagged invalid */
-        }
-    } else assert(port==NULL && inv==1);
+    /* exact reference split, written from the function's documentation */
+    int xh=0, xp=0, xinv=0; size_t hs=s, he=s, ps=0, pe=0;   /* expected: host present / port present / invalid, [hs,he) [ps,pe) */
+    if(s==e){ xinv=1; }
+    else if(raw[s]=='['){ size_t j=s; while(j<e && raw[j]!=']') j++;
+        if(j==e){ xinv=1; }
+        else { xh=1; he=j+1; if(j+1==e){ } else if(raw[j+1]==':'){ xp=1; ps=j+2; pe=e; } else xinv=1; } }
+    else { size_t c=s; while(c<e && raw[c]!=':') c++;
+        xh=1; if(c==e){ he=e; } else { he=c; while(he>s && is_ws(raw[he-1])) he--; xp=1; ps=c+1; pe=e; } }
+    assert((host!=NULL)==xh); assert((port!=NULL)==xp);
+    if(xh){ assert(bstr_len(host)==he-hs); for(size_t i=0;i<N;i++) if(i<he-hs) assert(lc(bstr_ptr(host)[i])==lc(raw[hs+i])); }
+    if(xp){ assert(bstr_len(port)==pe-ps); for(size_t i=0;i<N;i++) if(i<pe-ps) assert(bstr_ptr(port)[i]==raw[ps+i]);
+        long v=ref_port(raw+ps,pe-ps);
+        if(v>=1 && v<=65535){ assert(pn==(int)v); assert(inv==xinv); } else { assert(pn==-1); assert(inv==1); } }
+    else { assert(pn==-1); assert(inv==xinv); }
     VERIF_COVER(host && port && pn>0, "host with valid port");
     VERIF_COVER(host && bstr_len(host)>0 && bstr_ptr(host)[0]=='[' && port, "ipv6 with port");
     VERIF_WITNESS();
